@@ -15,8 +15,20 @@ coordinate-DEGREE distance with the tolerance in METRES; the old witness is kept
 Second part (model `Compass/Model/MapMatchIO.lean`): the query readers / writers of `InputJsonExtensions`, the
 two builders with `RTreePlugin::new` / `EdgeRtreeInputPlugin::new`, and the range checks of `haversine`.
 
-Outside the theorems: the f32 rounding of coordinates and of `haversine`, the geometry behind `distance_2`
-(for edges it is the distance to the CENTROID of the linestring, not to the linestring), `rstar` itself.
+Modelled rather than verified (inputs or assumptions of the model, guarded by the harness only):
+* `distance_2` (squared coordinate distance to the vertex / to the CENTROID of the linestring, not to the
+  linestring), the great-circle value of `haversine`, the verdict of the vehicle restrictions: input tables;
+* `rstar`: that its nearest-first list is sorted is the hypothesis `Sorted`; that it is a permutation of ALL
+  vertices / edges cannot be stated here (the model has no vertex set) — both checked on every generated case;
+  `oc` and `dc` are unrelated lists in the theorems; on ties the harness puts `nearest_neighbor`'s choice first;
+* exact arithmetic: every theorem is over a linearly ordered field; f32 coordinates, the f32 `haversine`, f64
+  rounding in the unit conversion and NaN are outside;
+* the builders: "file exists / parses (finite coordinates) / has n rows / contains an empty linestring" are
+  abstract booleans and counts (`fileParses`, `EdgeFiles`), not file contents;
+* `within_tolerance`'s "empty linestring" error is merged into `gc = none`; the panic of
+  `EdgeRtreeRecord::distance_2` on an empty linestring is not an outcome of the model — excluded for plugins made
+  by the builder (`edge_builder_consistent`), reachable only through the `pub` fields;
+* `VehicleParameters::from_query(..).ok()`: malformed vehicle parameters count as absent (inside the `vehOk` table).
 -/
 import Compass.Proofs.MapMatch
 
@@ -153,6 +165,21 @@ theorem vertex_beyond_tolerance_is_error (t : α) (u : DistanceUnit) (kvs : List
   have hv := (validateTolerance_beyond_iff t u c).mpr ⟨g, hg, hbeyond⟩
   simp [vertexProcess, ho, hd, matchVertexInto, nearestVertex, hv]
 
+/-- C16 (vertex, tolerance, the destination's error side): the origin matched, the destination's nearest vertex is
+beyond the tolerance: the plugin fails with the tolerance error — and, because the origin was written before the
+destination was examined, the query it leaves behind carries `origin_vertex` (the `Result` is an error and no
+search runs; only the echoed request shows it).  So "an error and never a match" holds of the RESULT, and of the
+destination field, not of the whole mutated query (`vertex_error_writes_at_most_origin`). -/
+theorem vertex_destination_beyond_tolerance_is_error (t : α) (u : DistanceUnit) (kvs : List (String × Json))
+    (co cd : VCand α) (ro rd : List (VCand α)) (gd : α)
+    (ho : originCoordinate (.obj kvs) = .ok ()) (hd : destinationCoordinate (.obj kvs) = .ok true)
+    (hpo : Passes (some (t, u)) co) (hg : cd.gc = some gd) (hbeyond : t < DistanceUnit.meters.convert u gd) :
+    vertexProcess (some (t, u)) (.obj kvs) (co :: ro) (cd :: rd) =
+      ⟨some .beyondTolerance, .obj (insertKv kvs "origin_vertex" (idJson co.id))⟩ := by
+  have hvo := (validateTolerance_ok_iff (some (t, u)) co).mpr hpo
+  have hvd := (validateTolerance_beyond_iff t u cd).mpr ⟨gd, hg, hbeyond⟩
+  simp [vertexProcess, ho, hd, matchVertexInto, nearestVertex, hvo, hvd, addField, Field.name]
+
 /-- regression: the witness of the former defect `vertex-match/tolerance-boundary` (a vertex exactly 100 m
 away, tolerance 100 m) now passes the tolerance test -/
 example : validateTolerance (some ((100 : ℚ), DistanceUnit.meters)) ⟨0, 1 / 1000000, some 100⟩ = .ok () := by
@@ -172,12 +199,14 @@ theorem vertex_tolerance_in_metres (t g : α) (u : DistanceUnit) :
 /-! ### nearest admissible edge -/
 
 /-- C16 (edge, first admissible): a match is the first admissible candidate of the nearest-first list;
-every candidate before it was inadmissible, and it passed the tolerance test. -/
+every candidate before it was inadmissible (and had a road class wherever the filter asked for one), and it
+passed the tolerance test. -/
 theorem edge_match_first_admissible (tol : Option (α × DistanceUnit)) (classes : Option (List Nat))
     (hasLookup : Bool) (cands : List (ECand α)) (id : Nat)
     (h : searchEdge tol classes hasLookup cands = .ok (some id)) :
     ∃ pre c post, cands = pre ++ c :: post ∧ c.id = id ∧ Admissible classes hasLookup c ∧
-      (∀ c' ∈ pre, ¬ Admissible classes hasLookup c') ∧ withinTolerance tol c = .ok true := by
+      (∀ c' ∈ pre, ¬ Admissible classes hasLookup c') ∧ withinTolerance tol c = .ok true ∧
+      LookupCovers classes hasLookup pre := by
   induction cands with
   | nil => simp [searchEdge] at h
   | cons c rest ih =>
@@ -195,17 +224,26 @@ theorem edge_match_first_admissible (tol : Option (α × DistanceUnit)) (classes
           · next hwt =>
             injection h with h; injection h with h
             subst hwt
-            exact ⟨[], c, rest, rfl, h, ⟨by rw [hvc, hboth.1], hboth.2⟩, by simp, hw⟩
+            exact ⟨[], c, rest, rfl, h, ⟨by rw [hvc, hboth.1], hboth.2⟩, by simp, hw, by intro _ _ c' hc'; simp at hc'⟩
           · cases h
       · next hboth =>
-        obtain ⟨pre, c1, post, rfl, hid, hadm, hpre, hwt⟩ := ih h
-        refine ⟨c :: pre, c1, post, rfl, hid, hadm, ?_, hwt⟩
-        intro c' hc'
-        rcases List.mem_cons.mp hc' with rfl | hm
-        · rintro ⟨h1, h2⟩
-          rw [hvc] at h1; injection h1 with h1
-          apply hboth; simp [h1, h2]
-        · exact hpre c' hm
+        obtain ⟨pre, c1, post, rfl, hid, hadm, hpre, hwt, hcov⟩ := ih h
+        refine ⟨c :: pre, c1, post, rfl, hid, hadm, ?_, hwt, ?_⟩
+        · intro c' hc'
+          rcases List.mem_cons.mp hc' with rfl | hm
+          · rintro ⟨h1, h2⟩
+            rw [hvc] at h1; injection h1 with h1
+            apply hboth; simp [h1, h2]
+          · exact hpre c' hm
+        · intro hl hc c' hc'
+          rcases List.mem_cons.mp hc' with rfl | hm
+          · intro hnone
+            have : validClass classes true c' = .error .roadClassMissing := by
+              cases classes with
+              | none => simp at hc
+              | some cs => simp [validClass, hnone]
+            rw [hl] at hvc; rw [hvc] at this; cases this
+          · exact hcov hl hc c' hm
 
 /-- C16 (edge, nearest admissible): on a nearest-first list the match is admissible and no admissible
 candidate is strictly nearer (under the plugin's distance measure) -/
@@ -214,7 +252,7 @@ theorem edge_match_is_nearest_admissible (tol : Option (α × DistanceUnit))
     (hs : Sorted ECand.d2 cands) (h : searchEdge tol classes hasLookup cands = .ok (some id)) :
     ∃ c ∈ cands, c.id = id ∧ Admissible classes hasLookup c ∧
       ∀ c' ∈ cands, Admissible classes hasLookup c' → c.d2 ≤ c'.d2 := by
-  obtain ⟨pre, c, post, rfl, hid, hadm, hpre, _⟩ := edge_match_first_admissible tol classes hasLookup cands id h
+  obtain ⟨pre, c, post, rfl, hid, hadm, hpre, _, _⟩ := edge_match_first_admissible tol classes hasLookup cands id h
   refine ⟨c, by simp, hid, hadm, ?_⟩
   intro c' hc' hadm'
   rcases List.mem_append.mp hc' with hm | hm
@@ -278,10 +316,12 @@ theorem edge_process_writes_matches (tol : Option (α × DistanceUnit))
 
 /-! ### edge tolerance -/
 
-/-- the search reaches the first admissible candidate and decides on it alone -/
+/-- the search reaches the first admissible candidate and decides on it alone.  `hcov` is needed only when a
+road-class lookup is loaded and the query filters by class: it excludes the "road class file missing edge"
+error on a skipped candidate, which no plugin made by the builder can hit (`edge_builder_consistent`). -/
 theorem searchEdge_first_admissible (tol : Option (α × DistanceUnit)) (classes : Option (List Nat))
     (hasLookup : Bool) (pre post : List (ECand α)) (c : ECand α)
-    (hcls : ∀ c' ∈ pre, c'.cls ≠ none) (hpre : ∀ c' ∈ pre, ¬ Admissible classes hasLookup c')
+    (hcov : LookupCovers classes hasLookup pre) (hpre : ∀ c' ∈ pre, ¬ Admissible classes hasLookup c')
     (hadm : Admissible classes hasLookup c) :
     searchEdge tol classes hasLookup (pre ++ c :: post) =
       match withinTolerance tol c with
@@ -296,7 +336,9 @@ theorem searchEdge_first_admissible (tol : Option (α × DistanceUnit)) (classes
     simp only [List.cons_append]
     unfold searchEdge
     cases hvc : validClass classes hasLookup p with
-    | error e => exact absurd (validClass_error classes hasLookup p e hvc).2.2.2 (hcls p List.mem_cons_self)
+    | error e =>
+      obtain ⟨_, h2, h3, h4⟩ := validClass_error classes hasLookup p e hvc
+      exact absurd h4 (hcov h2 h3 p List.mem_cons_self)
     | ok vc =>
       simp only
       split
@@ -304,21 +346,35 @@ theorem searchEdge_first_admissible (tol : Option (α × DistanceUnit)) (classes
         exfalso
         simp only [Bool.and_eq_true] at hboth
         exact hpre p List.mem_cons_self ⟨by rw [hvc, hboth.1], hboth.2⟩
-      · exact ih (fun c' hc' => hcls c' (List.mem_cons_of_mem _ hc')) (fun c' hc' => hpre c' (List.mem_cons_of_mem _ hc'))
+      · exact ih hcov.tail (fun c' hc' => hpre c' (List.mem_cons_of_mem _ hc'))
 
-/-- C16 (edge, tolerance): let `c` be the nearest admissible candidate (the first admissible one of the
-nearest-first list) and `g` its great-circle distance in metres.  With tolerance `t` in unit `u` the search
-matches `c` when `convert(g, metres → u) ≤ t` and matches nothing (the plugin then answers with an error)
-when it is beyond. -/
+/-- the search matches `id` exactly when the list has a nearest admissible candidate `id` that passes the
+tolerance test -/
+theorem edge_search_matches_iff (tol : Option (α × DistanceUnit)) (classes : Option (List Nat))
+    (hasLookup : Bool) (cands : List (ECand α)) (id : Nat) :
+    searchEdge tol classes hasLookup cands = .ok (some id) ↔ Matchable tol classes hasLookup cands id := by
+  constructor
+  · intro h
+    obtain ⟨pre, c, post, hsplit, hid, hadm, hpre, hwt, hcov⟩ := edge_match_first_admissible tol classes hasLookup cands id h
+    exact ⟨pre, c, post, hsplit, hid, hcov, hpre, hadm, (withinTolerance_ok_true_iff tol c).mp hwt⟩
+  · rintro ⟨pre, c, post, rfl, rfl, hcov, hpre, hadm, hpass⟩
+    rw [searchEdge_first_admissible tol classes hasLookup pre post c hcov hpre hadm,
+      (withinTolerance_ok_true_iff tol c).mpr hpass]
+    rfl
+
+/-- C16 (edge, tolerance, search level): let `c` be the nearest admissible candidate (the first admissible one
+of the nearest-first list) and `g` its great-circle distance in metres.  With tolerance `t` in unit `u` the
+search matches `c` when `convert(g, metres → u) ≤ t` and matches nothing when it is beyond.  (If `c.gc = none`
+— `haversine` refuses the coordinate — the search is an error: `searchEdge_first_admissible`.) -/
 theorem edge_tolerance (t : α) (u : DistanceUnit) (classes : Option (List Nat)) (hasLookup : Bool)
     (pre post : List (ECand α)) (c : ECand α) (g : α)
-    (hcls : ∀ c' ∈ pre, c'.cls ≠ none) (hpre : ∀ c' ∈ pre, ¬ Admissible classes hasLookup c')
+    (hcov : LookupCovers classes hasLookup pre) (hpre : ∀ c' ∈ pre, ¬ Admissible classes hasLookup c')
     (hadm : Admissible classes hasLookup c) (hg : c.gc = some g) :
     (DistanceUnit.meters.convert u g ≤ t →
       searchEdge (some (t, u)) classes hasLookup (pre ++ c :: post) = .ok (some c.id)) ∧
     (t < DistanceUnit.meters.convert u g →
       searchEdge (some (t, u)) classes hasLookup (pre ++ c :: post) = .ok none) := by
-  rw [searchEdge_first_admissible _ classes hasLookup pre post c hcls hpre hadm]
+  rw [searchEdge_first_admissible _ classes hasLookup pre post c hcov hpre hadm]
   constructor
   · intro h; simp [withinTolerance, hg, h]
   · intro h; simp [withinTolerance, hg, not_le.mpr h]
@@ -332,7 +388,7 @@ example : searchEdge (some ((1 : ℚ), DistanceUnit.meters)) none false
 /-- without a configured tolerance the edge matcher returns the first admissible candidate whenever there
 is one -/
 theorem edge_no_tolerance_matches (classes : Option (List Nat)) (hasLookup : Bool)
-    (cands : List (ECand α)) (hcls : ∀ c ∈ cands, c.cls ≠ none)
+    (cands : List (ECand α)) (hcov : LookupCovers classes hasLookup cands)
     (hex : ∃ c ∈ cands, Admissible classes hasLookup c) :
     ∃ id, searchEdge none classes hasLookup cands = .ok (some id) := by
   obtain ⟨cstar, hmem, hadm⟩ := hex
@@ -342,7 +398,8 @@ theorem edge_no_tolerance_matches (classes : Option (List Nat)) (hasLookup : Boo
     unfold searchEdge
     cases hvc : validClass classes hasLookup c with
     | error e =>
-      exact absurd (validClass_error classes hasLookup c e hvc).2.2.2 (hcls c List.mem_cons_self)
+      obtain ⟨_, h2, h3, h4⟩ := validClass_error classes hasLookup c e hvc
+      exact absurd h4 (hcov h2 h3 c List.mem_cons_self)
     | ok vc =>
       simp only
       split
@@ -353,7 +410,63 @@ theorem edge_no_tolerance_matches (classes : Option (List Nat)) (hasLookup : Boo
           obtain ⟨h1, h2⟩ := hadm
           rw [hvc] at h1; injection h1 with h1
           simp [h1, h2]
-        · exact ih (fun c hc => hcls c (List.mem_cons_of_mem _ hc)) hm
+        · exact ih hcov.tail hm
+
+/-- the plugin succeeds as soon as the road classes are readable, the coordinate fields are well formed and the
+search from the origin — and from the destination, if there is one — finds an edge -/
+theorem edge_process_succeeds (tol : Option (α × DistanceUnit)) (mapping : List (String × Nat)) (hasLookup : Bool)
+    (kvs : List (String × Json)) (oc dc : List (ECand α)) (classes : Option (List Nat)) (hasDst : Bool) (eo : Nat)
+    (hr : readRoadClasses mapping (.obj kvs) = .ok classes)
+    (ho : originCoordinate (.obj kvs) = .ok ()) (hd : destinationCoordinate (.obj kvs) = .ok hasDst)
+    (hso : searchEdge tol classes hasLookup oc = .ok (some eo))
+    (hsd : hasDst = true → ∃ ed, searchEdge tol classes hasLookup dc = .ok (some ed)) :
+    (edgeProcess tol mapping hasLookup (.obj kvs) oc dc).err = none := by
+  cases hasDst with
+  | false => simp [edgeProcess, hr, ho, hd, searchEdge!, hso, addField]
+  | true =>
+    obtain ⟨ed, hed⟩ := hsd rfl
+    simp [edgeProcess, hr, ho, hd, searchEdge!, hso, hed, addField]
+
+/-- C16 (edge, tolerance, the PLUGIN): for a query with readable road classes and well-formed coordinate fields,
+`EdgeRtreeInputPlugin::process` succeeds exactly when the origin — and the destination, if there is one — has a
+nearest admissible candidate (first admissible in the nearest-first list, the skipped ones inadmissible) whose
+great-circle distance, converted into the tolerance unit, is ≤ the tolerance (any such candidate when no tolerance
+is configured).  "Beyond the tolerance yields an error and never a match; within tolerance always matches." -/
+theorem edge_tolerance_process (tol : Option (α × DistanceUnit)) (mapping : List (String × Nat)) (hasLookup : Bool)
+    (kvs : List (String × Json)) (oc dc : List (ECand α)) (classes : Option (List Nat)) (hasDst : Bool)
+    (hr : readRoadClasses mapping (.obj kvs) = .ok classes)
+    (ho : originCoordinate (.obj kvs) = .ok ()) (hd : destinationCoordinate (.obj kvs) = .ok hasDst) :
+    (edgeProcess tol mapping hasLookup (.obj kvs) oc dc).err = none ↔
+      (∃ id, Matchable tol classes hasLookup oc id) ∧ (hasDst = true → ∃ id, Matchable tol classes hasLookup dc id) := by
+  constructor
+  · intro h
+    obtain ⟨classes', eo, hr', hso, _, hdst⟩ := edge_process_writes_matches tol mapping hasLookup (.obj kvs) oc dc h
+    rw [hr] at hr'; injection hr' with hr'; subst hr'
+    refine ⟨⟨eo, (edge_search_matches_iff _ _ _ _ _).mp hso⟩, ?_⟩
+    intro hdt
+    subst hdt
+    obtain ⟨ed, hsd, _⟩ := hdst hd
+    exact ⟨ed, (edge_search_matches_iff _ _ _ _ _).mp hsd⟩
+  · rintro ⟨⟨eo, ho'⟩, hdst⟩
+    refine edge_process_succeeds tol mapping hasLookup kvs oc dc classes hasDst eo hr ho hd
+      ((edge_search_matches_iff _ _ _ _ _).mpr ho') ?_
+    intro hdt
+    obtain ⟨ed, hm⟩ := hdst hdt
+    exact ⟨ed, (edge_search_matches_iff _ _ _ _ _).mpr hm⟩
+
+/-- C16 (edge, tolerance, the error side at the plugin): when the origin's nearest admissible candidate lies
+beyond the tolerance the plugin answers "unable to match" and the query is exactly as it was — whatever the
+destination. -/
+theorem edge_beyond_tolerance_is_error (t : α) (u : DistanceUnit) (mapping : List (String × Nat)) (hasLookup : Bool)
+    (kvs : List (String × Json)) (pre post dc : List (ECand α)) (c : ECand α) (g : α)
+    (classes : Option (List Nat)) (hasDst : Bool)
+    (hr : readRoadClasses mapping (.obj kvs) = .ok classes)
+    (ho : originCoordinate (.obj kvs) = .ok ()) (hd : destinationCoordinate (.obj kvs) = .ok hasDst)
+    (hcov : LookupCovers classes hasLookup pre) (hpre : ∀ c' ∈ pre, ¬ Admissible classes hasLookup c')
+    (hadm : Admissible classes hasLookup c) (hg : c.gc = some g) (hbeyond : t < DistanceUnit.meters.convert u g) :
+    edgeProcess (some (t, u)) mapping hasLookup (.obj kvs) (pre ++ c :: post) dc = ⟨some .noEdgeMatch, .obj kvs⟩ := by
+  have hs := (edge_tolerance t u classes hasLookup pre post c g hcov hpre hadm hg).2 hbeyond
+  simp [edgeProcess, hr, ho, hd, searchEdge!, hs]
 
 /-! ### all other fields are left unchanged -/
 
@@ -511,8 +624,9 @@ theorem edge_destination_optional (tol : Option (α × DistanceUnit))
 
 /-! ### reading the query: coordinates, and the ids the matchers wrote -/
 
-/-- the coordinate readers used inside `process` are the value-returning readers of
-`InputJsonExtensions` with the value dropped: same acceptance, same error, field by field -/
+/-- consistency of the MODEL (not a statement about the code): the coordinate readers used inside the two
+`process` models are the value-returning readers of `MapMatchIO` with the value dropped — same acceptance, same
+error, field by field.  Both model one Rust function each; what ties them to it is the correspondence run. -/
 theorem coordinate_readers_agree (q : Json) :
     originCoordinate q = (originCoordinateBits q).map (fun _ => ()) ∧
     destinationCoordinate q = (destinationCoordinateBits q).map Option.isSome := by
@@ -558,8 +672,10 @@ theorem vertex_match_reads_back_argmin (tol : Option (α × DistanceUnit)) (q : 
   rw [hget]
   simp [asU64_idJson c.id (hid c hc)]
 
-/-- the readers name the field they were asked for (the code used to blame `origin_edge` for an ill-typed
-`destination_edge`; oracle key `ext/error-names-wrong-field`) -/
+/-- the two reader shapes only ever blame the field they are given.  This holds by the way `getRequiredId` /
+`getOptionalId` are written; that `get_destination_edge` IS `getOptionalId .destinationEdge` (the code used to
+pass `origin_edge` to the error) is a fact about the model's definition, tied to the code by the `x getde`
+correspondence stream and the oracle key `ext/error-names-wrong-field`, not by this theorem. -/
 theorem id_reader_errors_name_their_field (q : Json) (f : Field) (e : Err) :
     (getRequiredId q f = .error e → e = .missingField f ∨ e = .invalidType f) ∧
     (getOptionalId q f = .error e → e = .invalidType f) := by
@@ -584,6 +700,30 @@ theorem writer_refuses_non_objects (q : Json) (f : Field) (n : Nat) :
     (∃ q', addField q f n = .ok q') ↔ q.isObject = true := by
   cases q <;> simp [addField, Json.isObject]
 
+/-- the remaining accessors of `InputJsonExtensions` (they belong to the load balancer and to grid search, not
+to map matching): a query weight estimate written by `add_query_weight_estimate` reads back through
+`get_query_weight_estimate`, the writer refuses exactly non-objects, and it does not disturb `grid_search` -/
+theorem weight_estimate_reads_back (q : Json) (lexeme : String) (bits : Nat) :
+    ((∃ q', addQueryWeightEstimate q lexeme bits = .ok q') ↔ q.isObject = true) ∧
+    (∀ q', addQueryWeightEstimate q lexeme bits = .ok q' →
+      getQueryWeightEstimate q' = .ok (some bits) ∧ getGridSearch q' = getGridSearch q) := by
+  constructor
+  · cases q <;> simp [addQueryWeightEstimate, Json.isObject]
+  · intro q' h
+    cases q with
+    | obj kvs =>
+      simp only [addQueryWeightEstimate] at h
+      injection h with h; subst h
+      constructor
+      · simp [getQueryWeightEstimate, Json.get?, lookup_insertKv_same, Json.asF64Bits?]
+      · simp only [getGridSearch, Json.get?]
+        exact lookup_insertKv_other _ _ _ _ (by decide)
+    | null => simp [addQueryWeightEstimate] at h
+    | bool b => simp [addQueryWeightEstimate] at h
+    | num l b => simp [addQueryWeightEstimate] at h
+    | str s => simp [addQueryWeightEstimate] at h
+    | arr xs => simp [addQueryWeightEstimate] at h
+
 /-- writing over a key that is already there keeps every key where it was; a new key goes last -/
 theorem writer_keeps_key_order (kvs : List (String × Json)) (f : Field) (n : Nat) :
     (kvs.any (fun p => p.1 == f.name) = true →
@@ -595,7 +735,9 @@ theorem writer_keeps_key_order (kvs : List (String × Json)) (f : Field) (n : Na
 /-! ### the builders -/
 
 /-- the tolerance a configuration yields: none without `distance_tolerance` (a lone `distance_unit` is
-ignored), metres when only the tolerance is given, the stated unit otherwise -/
+ignored), metres when only the tolerance is given, the stated unit otherwise.  This restates the four arms of
+`resolveTolerance` (it holds by `rfl`); its content is that the default unit, taken from the translator-generated
+`baseDistanceUnit`, is metres.  That the code's `match` has these arms is checked by the `b` streams. -/
 theorem builder_tolerance_resolution (t : Nat) (u : DistanceUnit) :
     resolveTolerance (none : Option Nat) (none : Option DistanceUnit) = none ∧
     resolveTolerance (none : Option Nat) (some u) = none ∧
@@ -637,6 +779,35 @@ theorem edge_new_ok_iff (files : EdgeFiles) (tol : Option (Nat × DistanceUnit))
   cases hasRc <;> cases hasVr <;> cases geo <;> cases empty <;> cases rok <;> cases rcl <;> simp <;>
     (split <;> simp_all)
 
+/-- `EdgeRtreeInputPluginBuilder::build` accepts exactly the configurations whose `geometry_input_file` is a
+string, whose optional file entries are strings, whose tolerance / unit / road-class-parser entries deserialise,
+and whose files `EdgeRtreeInputPlugin::new` accepts (`edge_new_ok_iff`); the plugin is then the one `new` makes
+with the tolerance of `builder_tolerance_resolution`.  Every other configuration is an error value. -/
+theorem edge_builder_ok_iff (cfg : Json) (files : EdgeFiles) (pl : EdgePlugin) :
+    edgeBuilder cfg files = .ok pl ↔
+      (∃ g, cfgString cfg "geometry_input_file" = .ok g) ∧
+      ∃ rc vr t u, cfgStringOpt cfg "road_class_input_file" = .ok rc ∧
+        cfgStringOpt cfg "vehicle_restriction_input_file" = .ok vr ∧
+        cfgTolerance cfg = .ok t ∧ cfgUnit cfg = .ok u ∧ cfgParserOk cfg = true ∧
+        edgeNew files (resolveTolerance t u) rc.isSome vr.isSome = .ok pl := by
+  unfold edgeBuilder
+  cases hg : cfgString cfg "geometry_input_file" with
+  | error e => simp
+  | ok g =>
+    cases hrc : cfgStringOpt cfg "road_class_input_file" with
+    | error e => simp
+    | ok rc =>
+      cases hvr : cfgStringOpt cfg "vehicle_restriction_input_file" with
+      | error e => simp
+      | ok vr =>
+        cases ht : cfgTolerance cfg with
+        | error e => simp
+        | ok t =>
+          cases hu : cfgUnit cfg with
+          | error e => simp
+          | ok u =>
+            cases hp : cfgParserOk cfg <;> simp
+
 /-- a plugin the edge builder accepts has a road-class lookup of exactly the network's size whenever it has
 one, and no empty linestring: the "road class file missing edge" arm of `search` and the panic of
 `EdgeRtreeRecord::distance_2` are out of reach of every built plugin; its tolerance is the one of
@@ -673,7 +844,8 @@ theorem edge_builder_consistent (cfg : Json) (files : EdgeFiles) (pl : EdgePlugi
 /-! ### haversine: which coordinates it accepts -/
 
 /-- `coord_distance_meters` answers exactly for coordinates inside [-180,180] × [-90,90] (both ends
-included), for source and destination alike; `coord_distance` is the same answer converted -/
+included), for source and destination alike; `coord_distance` is the same answer converted.  (The second
+conjunct — the answer is `value` — is true by construction: the trigonometric value is an input of the model.) -/
 theorem haversine_accepts_iff_in_range (sx sy dx dy value : α) (u : DistanceUnit) :
     ((coordDistanceMeters sx sy dx dy value).isSome ↔
       (-180 ≤ sx ∧ sx ≤ 180) ∧ (-180 ≤ dx ∧ dx ≤ 180) ∧ (-90 ≤ sy ∧ sy ≤ 90) ∧ (-90 ≤ dy ∧ dy ≤ 90)) ∧
@@ -738,17 +910,102 @@ example : (vertexProcess (none : Option (ℚ × DistanceUnit)) exQuery exVerts [
   simp [vertexProcess, exQuery, exVerts, originCoordinate, numField, destinationCoordinate, Json.get?, Json.lookup,
     Field.name, Json.isNumber, matchVertexInto, nearestVertex, validateTolerance, addField, Json.insertKv]
 
+/-! non-vacuity of the edge tolerance theorems on realistic configurations -/
+
+/-- a plugin WITHOUT road-class lookup (`cls = none` everywhere, as the harness encodes it) but with vehicle
+restrictions: the nearest edge is excluded by a restriction, the second, 11 km away, is admissible -/
+def exPre : List (ECand ℚ) := [⟨1, 1 / 1000, none, false, some 100⟩]
+def exEdge : ECand ℚ := ⟨4, 1 / 100, none, true, some 11119⟩
+
+example : LookupCovers (none : Option (List Nat)) false exPre := by intro h; cases h
+example : ∀ c' ∈ exPre, ¬ Admissible (none : Option (List Nat)) false c' := by
+  intro c' hc'; simp [exPre] at hc'; subst hc'; simp [Admissible]
+example : Admissible (none : Option (List Nat)) false exEdge := by simp [Admissible, validClass, exEdge]
+-- `edge_tolerance` applied: 20 km matches edge 4, 5 km matches nothing
+example : searchEdge (some ((20 : ℚ), DistanceUnit.kilometers)) none false (exPre ++ exEdge :: []) = .ok (some 4) :=
+  (edge_tolerance 20 .kilometers none false exPre [] exEdge 11119 (by intro h; cases h)
+    (by intro c' hc'; simp [exPre] at hc'; subst hc'; simp [Admissible])
+    (by simp [Admissible, validClass, exEdge]) rfl).1
+    (by simp [DistanceUnit.convert, DistanceUnit.factor, Factor.apply, Lit.lit]; norm_num)
+example : searchEdge (some ((5 : ℚ), DistanceUnit.kilometers)) none false (exPre ++ exEdge :: []) = .ok none :=
+  (edge_tolerance 5 .kilometers none false exPre [] exEdge 11119 (by intro h; cases h)
+    (by intro c' hc'; simp [exPre] at hc'; subst hc'; simp [Admissible])
+    (by simp [Admissible, validClass, exEdge]) rfl).2
+    (by simp [DistanceUnit.convert, DistanceUnit.factor, Factor.apply, Lit.lit]; norm_num)
+
+/-- a plugin WITH lookup and a query that filters by road class: the nearest edge is of an excluded class -/
+def exPreCls : List (ECand ℚ) := [⟨4, 1 / 100, some 5, true, some 1000⟩]
+def exEdgeCls : ECand ℚ := ⟨9, 1 / 50, some 2, true, some 1500⟩
+example : LookupCovers (some [1, 2]) true exPreCls := by
+  intro _ _ c hc; simp [exPreCls] at hc; subst hc; simp
+-- `edge_no_tolerance_matches` applied
+example : ∃ id, searchEdge (none : Option (ℚ × DistanceUnit)) (some [1, 2]) true (exPreCls ++ [exEdgeCls]) = .ok (some id) :=
+  edge_no_tolerance_matches (some [1, 2]) true _
+    (by intro _ _ c hc; simp [exPreCls, exEdgeCls] at hc; rcases hc with rfl | rfl <;> simp)
+    ⟨exEdgeCls, by simp, by simp [Admissible, validClass, exEdgeCls]⟩
+
+/-- a query with a destination, for the process-level theorems -/
+def exQueryDst : List (String × Json) :=
+  [("origin_x", .num "0.1" 0), ("origin_y", .num "0" 0), ("destination_x", .num "0.2" 0), ("destination_y", .num "0" 0)]
+example : originCoordinate (.obj exQueryDst) = .ok () := by
+  simp [exQueryDst, originCoordinate, numField, Json.get?, Json.lookup, Field.name, Json.isNumber]
+example : destinationCoordinate (.obj exQueryDst) = .ok true := by
+  simp [exQueryDst, destinationCoordinate, Json.get?, Json.lookup, Field.name, Json.isNumber]
+example : readRoadClasses [] (.obj exQueryDst) = .ok none := by
+  simp [exQueryDst, readRoadClasses, Json.get?, Json.lookup]
+-- `edge_tolerance_process`: both sides matchable within 20 km, so the plugin succeeds (and the right-hand side is
+-- not vacuous: with 5 km the origin is not matchable, `edge_beyond_tolerance_is_error`)
+example : (edgeProcess (some ((20 : ℚ), DistanceUnit.kilometers)) [] false (.obj exQueryDst)
+    (exPre ++ [exEdge]) [exEdge]).err = none := by
+  refine (edge_tolerance_process _ [] false exQueryDst _ _ none true ?_ ?_ ?_).mpr ⟨⟨4, ?_⟩, fun _ => ⟨4, ?_⟩⟩
+  · simp [exQueryDst, readRoadClasses, Json.get?, Json.lookup]
+  · simp [exQueryDst, originCoordinate, numField, Json.get?, Json.lookup, Field.name, Json.isNumber]
+  · simp [exQueryDst, destinationCoordinate, Json.get?, Json.lookup, Field.name, Json.isNumber]
+  · refine ⟨exPre, exEdge, [], rfl, rfl, (by intro h; cases h), ?_, (by simp [Admissible, validClass, exEdge]), ?_⟩
+    · intro c' hc'; simp [exPre] at hc'; subst hc'; simp [Admissible]
+    · exact ⟨11119, rfl, by simp [DistanceUnit.convert, DistanceUnit.factor, Factor.apply, Lit.lit]; norm_num⟩
+  · refine ⟨[], exEdge, [], rfl, rfl, (by intro h; cases h), (by simp), (by simp [Admissible, validClass, exEdge]), ?_⟩
+    exact ⟨11119, rfl, by simp [DistanceUnit.convert, DistanceUnit.factor, Factor.apply, Lit.lit]; norm_num⟩
+example : edgeProcess (some ((5 : ℚ), DistanceUnit.kilometers)) [] false (.obj exQueryDst)
+    (exPre ++ exEdge :: []) [exEdge] = ⟨some .noEdgeMatch, .obj exQueryDst⟩ :=
+  edge_beyond_tolerance_is_error 5 .kilometers [] false exQueryDst exPre [] [exEdge] exEdge 11119 none true
+    (by simp [exQueryDst, readRoadClasses, Json.get?, Json.lookup])
+    (by simp [exQueryDst, originCoordinate, numField, Json.get?, Json.lookup, Field.name, Json.isNumber])
+    (by simp [exQueryDst, destinationCoordinate, Json.get?, Json.lookup, Field.name, Json.isNumber])
+    (by intro h; cases h) (by intro c' hc'; simp [exPre] at hc'; subst hc'; simp [Admissible])
+    (by simp [Admissible, validClass, exEdge]) rfl
+    (by simp [DistanceUnit.convert, DistanceUnit.factor, Factor.apply, Lit.lit]; norm_num)
+-- the vertex plugin with a destination: both conjuncts of `vertex_match_is_argmin` / `vertex_tolerance` have a witness,
+-- and a destination beyond the tolerance leaves `origin_vertex` behind
+example : (vertexProcess (some ((20 : ℚ), DistanceUnit.kilometers)) (.obj exQueryDst) exVerts exVerts).err = none := by
+  refine (vertex_tolerance _ exQueryDst exVerts exVerts true ?_ ?_).mpr ⟨⟨_, rfl, ?_⟩, fun _ => ⟨_, rfl, ?_⟩⟩
+  · simp [exQueryDst, originCoordinate, numField, Json.get?, Json.lookup, Field.name, Json.isNumber]
+  · simp [exQueryDst, destinationCoordinate, Json.get?, Json.lookup, Field.name, Json.isNumber]
+  · exact ⟨11119, rfl, by simp [DistanceUnit.convert, DistanceUnit.factor, Factor.apply, Lit.lit]; norm_num⟩
+  · exact ⟨11119, rfl, by simp [DistanceUnit.convert, DistanceUnit.factor, Factor.apply, Lit.lit]; norm_num⟩
+example : (vertexProcess (some ((20 : ℚ), DistanceUnit.kilometers)) (.obj exQueryDst) exVerts
+    [⟨3, 1, some 111195⟩]).query.get? "origin_vertex" = some (idJson 7) := by
+  unfold exVerts
+  rw [vertex_destination_beyond_tolerance_is_error 20 .kilometers exQueryDst ⟨7, 1 / 100, some 11119⟩ ⟨3, 1, some 111195⟩
+    [⟨3, 1, some 111195⟩] [] 111195
+    (by simp [exQueryDst, originCoordinate, numField, Json.get?, Json.lookup, Field.name, Json.isNumber])
+    (by simp [exQueryDst, destinationCoordinate, Json.get?, Json.lookup, Field.name, Json.isNumber])
+    ⟨11119, rfl, by simp [DistanceUnit.convert, DistanceUnit.factor, Factor.apply, Lit.lit]; norm_num⟩ rfl
+    (by simp [DistanceUnit.convert, DistanceUnit.factor, Factor.apply, Lit.lit]; norm_num)]
+  show lookup (insertKv exQueryDst "origin_vertex" (idJson 7)) "origin_vertex" = _
+  exact lookup_insertKv_same _ _ _
+
 -- the readers accept what the writers wrote, and reject what is not an id
 example : getOriginVertex (.obj [("origin_vertex", idJson 7)]) = .ok 7 := by
   simp [getOriginVertex, getRequiredId, Json.get?, Json.lookup, Field.name, asU64_idJson]
 example : getDestinationEdge (.obj [("destination_edge", .str "7")]) = .error (.invalidType .destinationEdge) := by
   simp [getDestinationEdge, getOptionalId, Json.get?, Json.lookup, Field.name, Json.asU64?]
 -- both outcomes of each builder occur
-example : vertexBuilder (.obj [("vertices_input_file", .str "v.csv"), ("distance_tolerance", .num "10" 0)]) true true
-    = .ok (some (0, DistanceUnit.meters)) := by
+example : vertexBuilder (.obj [("vertices_input_file", .str "v.csv"), ("distance_tolerance", .num "10" 4621819117588971520)]) true true
+    = .ok (some (4621819117588971520, DistanceUnit.meters)) := by
   simp [vertexBuilder, cfgString, cfgTolerance, cfgUnit, Json.get?, Json.lookup, Json.asStr?, Json.asF64Bits?,
     resolveTolerance, baseDistanceUnit]
-example : vertexBuilder (.obj [("distance_tolerance", .num "10" 0)]) true true = .error .missingField := by
+example : vertexBuilder (.obj [("distance_tolerance", .num "10" 4621819117588971520)]) true true = .error .missingField := by
   simp [vertexBuilder, cfgString, Json.get?, Json.lookup]
 example : edgeBuilder (.obj [("geometry_input_file", .str "g.txt")]) ⟨none, true, some 3, true⟩ = .error .userConfig := by
   simp [edgeBuilder, edgeNew, cfgParserOk, cfgString, cfgStringOpt, cfgTolerance, cfgUnit, Json.get?, Json.lookup, Json.asStr?]
